@@ -17,7 +17,12 @@ RULE = ("coverage-guided fuzzing (libFuzzer, ASan + UBSan bounds/div-by-zero/nul
         "every command of command_names[] with number spellings, ranges, symbols and over-long tokens. Oracle: no "
         "sanitizer report, signal or time-out (time-outs re-run with 60 s); exit() while loading must carry status "
         "1. Output above 4 MB per input ends the iteration (requested output). non-trivial = corpus unit kept by "
-        "libFuzzer; evaluations = executions; the evidence classes count files accepted per loader")
+        "libFuzzer; evaluations = executions; the evidence classes count files accepted per loader. Third part (every "
+        "shard, Hypothesis + sanitized CLI): generated command lines (every CPU option, -bin/-address/-set_pc/-break_io/"
+        "-disasm/-disasm_range with and without their argument, unknown options, missing/empty/bin/hex files) and scripted "
+        "sessions over every interactive command with edge addresses (0, 64 KiB and 2^31 boundaries, top of the 32-bit "
+        "space), number spellings, ranges of known span (<= 600 units), register names and junk; the process must end by "
+        "itself with status 0/1, without sanitizer report or signal, and with output bounded by the requested spans")
 ASSUMPTIONS = ["work proportional to requested output (print 0-0xffffffff) is not a hang: the target cuts an iteration after 4 MB of output",
                "interactive `run` without `speed 0` runs until Ctrl-C by design; scripts are forced into single-step mode"]
 
@@ -99,8 +104,13 @@ def run(tier, seed, shard, nshards):
         fuzzdrv.campaign(s, PROP, "fuzz_util_cmd", tier, seed, shard - 10 if nshards >= 16 else shard, budget, make_cmd_seeds,
                          CMD_DICT, "/verif/corpus/C17/cmd_*", max_len=4096,
                          what="naken_util crashed / corrupted memory on this command sequence")
+    import c17s
+    c17s.part(s, tier, seed, shard)
     return s
 
 
 def replay(payload):
+    if payload.get("engine") == "c17s":
+        import c17s
+        return c17s.replay(payload)
     return fuzzdrv.replay(PROP, payload, "fuzz_util_file")
